@@ -245,6 +245,8 @@ class Script:
             fl = "-"
         if count is None and zlib.crc32(("dep:%s:%d" % (self.sid, len(self.lines))).encode()) % 4 == 0:
             fl = fl.replace("-", "") + "d"      # assemble_file, the deprecated alias
+        if zlib.crc32(("fd0:%s:%d" % (self.sid, len(self.lines))).encode()) % 3 == 0:
+            fl = fl.replace("-", "") + "c"      # with descriptor 0 free, so that the file is opened as descriptor 0
         tag = "t%d" % len(self.lines)
         if count is None:
             self.lines.append("T %d %s %s %s" % (i, fl, tag, hx(path)))
